@@ -50,6 +50,11 @@ func (jenny validationMethods) generateForObject(buffer *strings.Builder, contex
 				return resolvesToConstraints(resolved)
 			}
 
+			// aliases of scalars: the alias itself can hold constraints
+			if resolved.IsScalar() {
+				return resolvesToConstraints(resolved)
+			}
+
 			return false
 		}
 
